@@ -508,9 +508,19 @@ func bucketN(n int) string {
 func runC01(a runArgs) error {
 	e := NewEmitter("C01", "Codec.RunC01")
 	e.ShardSize = 120
-	e.Rule = "one case = one generated message through Size, Encode into buffers of length 0/1/size-1/size/size+7 (sentinel behind len), Decode and (stream) DecodeHeader of the produced bytes, pooled MarshalWithEncoder + UnmarshalWithDecoder. Mostly inside the preconditions; option deltas/lengths and body lengths aimed at 12/13/14, 268/269/270, 65804/65805; a separate share outside (token 9+, type/MID out of range, illegal or unsorted options, code > 255). Distinct = distinct message; non-trivial = at least one extended delta or length, or a non-empty payload. Option values may start with zero bytes (uint-format registry options often do; every uint entry of every table with every legal length is covered by hand-picked cases). Second family (strm): the stream coder's frames for 1-8 messages back to back, optionally followed by the first 1-96 bytes of one more frame; Decode, DecodeHeader and pooled UnmarshalWithDecoder at each frame position on all remaining bytes, advancing by the count Decode returns; non-trivial = the buffer holds bytes after its first frame."
+	e.Rule = "one case = one generated message through Size, Encode into buffers of length 0/1/size-1/size/size+7 (sentinel behind len), Decode and (stream) DecodeHeader of the produced bytes, pooled MarshalWithEncoder + UnmarshalWithDecoder. Mostly inside the preconditions; option deltas/lengths and body lengths aimed at 12/13/14, 268/269/270, 65804/65805; a separate share outside (token 9+, type/MID out of range, illegal or unsorted options, code > 255). Distinct = distinct message; non-trivial = at least one extended delta or length, or a non-empty payload. Option values may start with zero bytes (uint-format registry options often do; every uint entry of every table with every legal length is covered by hand-picked cases). Second family (strm): the stream coder's frames for 1-8 messages back to back, optionally followed by the first 1-96 bytes of one more frame; Decode, DecodeHeader and pooled UnmarshalWithDecoder at each frame position on all remaining bytes, advancing by the count Decode returns; non-trivial = the buffer holds bytes after its first frame. Third family (ucode): a datagram message is encoded once, then the Code field of a copy of the bytes is overwritten with each code of a list (all 256 for a few shapes, the signalling codes 225-229 plus others for the rest) and the copy goes through Decode and pooled UnmarshalWithDecoder; shapes: options 2 and 4 (ETag) at the value lengths where the RFC 8323 signalling tables differ from the CoAP registry, every registry option at its minimal and maximal length, random messages; non-trivial = the list contains a signalling code and the message has options."
 	if a.only != "" {
-		if st, ok := parseGStrm(a.only); ok {
+		if u, ok := parseGUCode(a.only); ok {
+			// an aggregate over several code bytes is replayed as one case per code byte,
+			// so that the reported failing input names the code
+			if cl := u.codeList(); len(cl) > 1 {
+				for _, c := range cl {
+					c01UCode(e, gUCode{g: u.g, codes: []int{c}})
+				}
+			} else {
+				c01UCode(e, u)
+			}
+		} else if st, ok := parseGStrm(a.only); ok {
 			c01Strm(e, st)
 		} else if g, ok := parseGMsg(a.only); ok {
 			c01Run(e, g)
@@ -576,5 +586,12 @@ func runC01(a runArgs) error {
 		nstrm = 1200
 	}
 	c01StreamRandom(e, rng.Fork(), nstrm)
+	// datagram framing, every code byte (c01code.go)
+	c01CodeCorners(e)
+	ncode := 40
+	if a.tier == "thorough" {
+		ncode = 400
+	}
+	c01CodeRandom(e, rng.Fork(), ncode)
 	return e.Flush(a.out)
 }
